@@ -52,7 +52,7 @@ template<class T> struct shape {
 TYPES = ["int", "long", "double", "char", "bool", "unsigned int", "long long", "unsigned", "short int", "float", "size_t", "std::string",
          "std::vector<int>", "std::vector<double>", "MyInt", "Color", "Pt", "Top", "ns::Cls", "ns::deep::Leaf", "int64_t", "Dev",
          "unsigned long long int", "long int", "unsigned short int", "unsigned long", "short", "uint8_t", "ns::NsLong", "Top::Inner"]
-NATIVE = {"int", "long", "double", "char", "unsigned int", "long long", "unsigned", "short int", "float", "unsigned long long int", "long int",
+NATIVE = {"void", "int", "long", "double", "char", "unsigned int", "long long", "unsigned", "short int", "float", "unsigned long long int", "long int",
           "unsigned short int", "unsigned long", "short"}
 PTRS = ["", "", "", "*", "*", "&", "**", "*&", "* const", "* const *", "* volatile", "***", "* const * volatile", "const *", "* const &", "&&"]
 
@@ -63,6 +63,8 @@ def gen_var(rng, name, depth=0):
     cv = rng.choice(["", "", "", "const ", "volatile ", "const volatile ", "volatile const "])
     post = rng.choice(["", "", "", "", " const", " volatile"]) if not cv else ""
     p = rng.choice(PTRS)
+    if rng.random() < 0.06:
+        t, p = "void", rng.choice(["*", "*", "**", "* const", "*&", "* const *"])      # void only behind a pointer
     s = cv + t + post + " " + p
     native = t in NATIVE
     r = rng.random()
@@ -92,6 +94,8 @@ def gen_fun(rng, name):
         native = native and pn
     if not params and rng.random() < 0.3:
         params = ["void"]
+    elif not params and rng.random() < 0.2:
+        params = [rng.choice(["void *", "const void *", "void **", "void * p", "void * const"])]      # a sole pointer-to-void is a parameter
     return re.sub(r"\s+", " ", "%s%s %s %s(%s)" % (cv, rt, p, name, ", ".join(params))).strip(), native
 
 
@@ -209,7 +213,10 @@ def run(ctx):
 
     # ---------------- 1. model vs implementation: parse and render
     n = 5000 if quick else 80000
-    cases = []
+    # the corpus of minimised earlier failures runs first (known findings are re-confirmed on every run; repaired ones must stay repaired)
+    cases = [(k, d) for k in sorted(ctxs) if k.startswith("class:")
+             for d in ("%s volatile (** const a2)(double const *)" % k.split(":", 1)[1], "%s (*fp)(int)" % k.split(":", 1)[1])]
+    cases += [(k, d) for k in sorted(ctxs) for d in ("int f(void *)", "int f(void)", "volatile int * volatile v", "const void * const * p")]
     for i in range(n):
         k = rng.choice(sorted(ctxs))
         d = declcmp.gen_decl(rng) if rng.random() < 0.6 else (gen_var(rng, "v")[0] if rng.random() < 0.6 else gen_fun(rng, "f")[0])
